@@ -1,10 +1,17 @@
 import Aqua.Exec.Scalars
 import Aqua.Gen.Consts
+import Aqua.Gen.Lens
 /-
 Replica of `value_types/stream/{values_matrix,stream_definition,recursive_stream}.rs` and of
 `execution_context/streams_variables.rs` (+ `stream_descriptor.rs`): generations of stream values,
 the size limit, compaction of generations into the result trace, the recursive cursor that feeds
 stream folds, and scoped stream instances (`new $stream`).
+
+Stream maps (`value_types/stream_map.rs`, `execution_context/stream_maps_variables.rs`): `StreamMap` is a
+newtype over `Stream` whose values are `{"key":…,"value":…}` objects, and `StreamMaps` is a copy of `Streams`.
+The model keeps ONE store (`Ctx.streams`) for both Rust hash maps, keyed by the name as written in the
+script: stream names start with `$`, map names with `%` (lexer), so the two key sets are disjoint and every
+`stream_maps.*` operation is the `streams.*` operation on the same list.
 -/
 namespace Aqua.Exec
 open Aqua Aqua.Json Aqua.Air Aqua.Data Aqua.Trace
@@ -211,5 +218,40 @@ def Ctx.compactifyStreams (c : Ctx) : ER Ctx :=
   | .ok (ss, th) => .ok { c with streams := ss, th := th }
   | .error e => .error e
   | .panic p => .panic p
+
+
+/-! ## stream maps (`value_types/stream_map.rs`) -/
+
+/-- `impl From<StreamMapKey> for JValue` -/
+def Lens.StreamMapKey.toJVal : Lens.StreamMapKey → JVal
+  | .str s => .str s
+  | .u64 n => .num n
+  | .i64 i => .num i
+
+/-- `from_key_value`: the object `{"key": key, "value": value}` -/
+def fromKeyValue (key : Lens.StreamMapKey) (value : JVal) : JVal :=
+  JVal.mkObj [(Gen.streamMapValueFieldName, value), (Gen.streamMapKeyFieldName, key.toJVal)]
+
+/-- `StreamMap::insert` + `StreamMaps::add_stream_map_value`: the key-value object takes over tetraplet,
+trace position and provenance of the value and is appended like a stream value -/
+def Ctx.addStreamMapValue (c : Ctx) (key : Lens.StreamMapKey) (v : ValueAggregate) (name : String) (g : Generation) (pos : Nat) : ER Ctx :=
+  c.addStreamValue (ValueAggregate.new (fromKeyValue key v.result) v.tetraplet v.tracePos v.provenance) name g pos
+
+/-- `StreamMap::iter_unique_key_object`: (rendered key, value) of the first pair of every rendered key; pairs that
+are not objects or whose key is not a map key are skipped; a pair without a value still uses up its key -/
+def iterUniqueKeyObject : List ValueAggregate → List String → List (String × JVal)
+  | [], _ => []
+  | va :: rest, met =>
+    match va.result with
+    | .obj _ =>
+      match (va.result.getField Gen.streamMapKeyFieldName).bind Lens.StreamMapKey.fromValue with
+      | none => iterUniqueKeyObject rest met
+      | some key =>
+        if met.contains key.toKey then iterUniqueKeyObject rest met
+        else
+          match va.result.getField Gen.streamMapValueFieldName with
+          | none => iterUniqueKeyObject rest (key.toKey :: met)
+          | some value => (key.toKey, value) :: iterUniqueKeyObject rest (key.toKey :: met)
+    | _ => iterUniqueKeyObject rest met
 
 end Aqua.Exec
